@@ -15,6 +15,9 @@ func mkdirAll(d *Dir, subPath string, filemode os.FileMode) (dir *Dir, err error
 
 func mkdirAllNodes(d *Dir, nodesPath []string, filemode os.FileMode) (dir *Dir, err error) {
 	for _, nodeName := range nodesPath {
+		if nodeName == "" || nodeName == currentDir {
+			continue
+		}
 		if d, err = d.mkdir(nodeName, filemode); err != nil {
 			return nil, err
 		}
